@@ -134,6 +134,7 @@ int main(int argc, char **argv) {
   setenv("RC_PARAMS", params.c_str(), 1);
   Rend lastr{}; std::string lastwhy, lastdoc; KeySpec lastk;
   bool ok = rc::check("C08: JWK import preserves key and metadata", [&]() {
+    if (v::shrink_exhausted()) return;
     Rend r; r.key = *rc::gen::weightedElement<int>({{1, -1}, {4, 0}}) < 0 ? -1 : *UNI(0, (int)KEYS.size());
     r.octlen = *rc::gen::weightedElement<int>({{3, 0}, {1, 1}}) ? *rc::gen::element(1, 2, 3, 16, 31, 32, 33, 48, 64, 65, 128, 511, 512) : *UNI(1, 513); r.octseed = *UNI<uint64_t>(0, 1ULL << 40);
     r.priv = *UNI(0, 2); r.pad = *rc::gen::weightedElement<int>({{3, 0}, {1, 1}, {1, 2}, {1, 3}}); r.strip = *UNI(0, 3) == 0; r.algk = *rc::gen::weightedElement<int>({{2, 0}, {3, 1}}) ? *UNI(0, NALGSTR) : 0;
@@ -143,7 +144,7 @@ int main(int argc, char **argv) {
     st.evaluations++; st.cls(k.kind == K_OCT ? std::string("oct") : k.kind == K_RSA ? std::string("RSA") : k.kind == K_EC ? "EC:" + k.crv : "OKP:" + k.crv);
     if (nt) { uint64_t fp = fnv(CURDOC); st.nontrivial(fp); if (r.pad && k.kind != K_OKP && k.kind != K_OCT) st.cls("zero-padded-integers"); if (r.strip && k.kind == K_EC) st.cls("stripped-ec-coordinates"); if (r.foreignk) st.cls("foreign-members"); if (r.priv) st.cls("private-form"); }
     if (st.want_sample()) st.sample(rend_json(r, CURDOC.substr(0, 400)));
-    if (!res.empty()) { std::string sig = "C08:" + res; if (st.is_known(sig)) { st.known_hits[sig]++; return; } lastr = r; lastwhy = res; lastdoc = CURDOC; RC_FAIL(res); }
+    if (!res.empty()) { std::string sig = "C08:" + res; if (st.is_known(sig)) { st.known_hits[sig]++; return; } lastr = r; lastwhy = res; lastdoc = CURDOC; v::fail_seen()++; RC_FAIL(res); }
   });
   if (!ok && !lastwhy.empty()) st.violation("C08:" + lastwhy, "imported item differs from the key/metadata the JWK states: " + lastwhy, rend_json(lastr, lastdoc));
   st.extra["keys_in_pool"] = std::to_string(KEYS.size());
